@@ -33,6 +33,7 @@ type World struct {
 	ToolErrs  []string
 	tagTypeMap map[int]types.Type
 	tagsAtLoad int
+	eltyIDs map[string]int
 	implCache map[string][]int
 	embeddable map[string]bool
 	containers map[string]map[string]types.Type
@@ -559,4 +560,19 @@ func (w *World) implementers(it *types.Interface, named types.Type) []int {
 		w.implCache[key] = out
 	}
 	return out
+}
+
+// eltyFor: identifier of an array element type (arrays of different element
+// types never share storage).
+func (w *World) eltyFor(t types.Type) int {
+	k := types.TypeString(t.Underlying(), nil)
+	if w.eltyIDs == nil {
+		w.eltyIDs = map[string]int{}
+	}
+	if id, ok := w.eltyIDs[k]; ok {
+		return id
+	}
+	id := len(w.eltyIDs) + 1
+	w.eltyIDs[k] = id
+	return id
 }
